@@ -277,6 +277,20 @@ fn run(ctx: &mut Ctx, rep: &mut Report) {
             one(ctx, rep, p, &nm("z"), &nm("a"), true);
         }
     });
+    // every label byte value with its bit-5 twin and its case twin: only true case twins may match
+    for (i, m) in all_label_bytes_messages().iter().enumerate() {
+        if !ctx.mine(i as u64) {
+            continue;
+        }
+        let x = encode(m, Strategy::Max);
+        rep.states += 1;
+        let src = m.q[0].name.clone();
+        let twin = m.an[0].owner.clone();
+        for sm in [false, true] {
+            one(ctx, rep, &x, &nm("k.z"), &src, sm);
+            one(ctx, rep, &x, &nm("k.z"), &twin, sm);
+        }
+    }
     for (i, p) in l5().iter().enumerate() {
         if ctx.mine(i as u64) {
             all(p);
